@@ -7,7 +7,8 @@
 
     Fragments (boolean predicates [fragP p], Proofs/AgreeProofs.v; never in: Map):
       [pC]  no bare lazy Iter (list()/tuple() of an Iter is in), no Template;
-      [pM]  no Template, no pre-set dictionaries, an Option's domain is a constant (finding D4);
+      [pM]  no Template, no pre-set dictionaries (refuted below: C11_missing_key_is_listed_refuted_presets),
+            an Option's domain is a constant (finding D4);
       [pN]  [pC] without pre-set dictionaries and AllOptions.
     Side conditions on the dictionary where it is compared with what explain() lists:
       [wf_dict o] (unique keys) and [resolves fuel o] (every option value resolves: no reference
@@ -97,6 +98,21 @@ Theorem C11_missing_key_is_listed_refuted_D1 :
   fst (validate_nc u_total 40 (EOption kA None None) d1_opts) = Err (CKey kB) true /\ ~ In kB [kA].
 Proof. exact d1_listed_refuted. Qed.
 Print Assumptions C11_missing_key_is_listed_refuted_D1.
+
+(** pre-set dictionaries ([pM]/[pN] exclude them; no general theorem yet): the witness with which the
+    first version of this file REFUTED "a missing-key failure names a listed key" under pre-set
+    dictionaries — WithOptions(Option('S.X'), {'S': {'X': 1}}, force=False) on {'S': []}: validate
+    fails for the missing option S.X while explain listed NOTHING (its filter dropped S.X as
+    "determined by the pre-set options").  That was a genuine defect of labrea (reproduced on the
+    implementation), repaired by fix 6884003; the model follows the repaired code, and on the
+    witness explain now lists S.X, which is absent. *)
+Example C11_preset_overlaid_away_is_listed_after_fix :
+  wf_dict preset_opts = true /\
+  fst (validate_nc u_total 40 preset_expr preset_opts) = Err (CKey kSX) true /\
+  fst (explain_nc u_total 40 preset_expr preset_opts) = Ok [kSX] /\
+  lookup kSX (JObj preset_opts) = Absent.
+Proof. exact presets_overlaid_away_listed. Qed.
+Print Assumptions C11_preset_overlaid_away_is_listed_after_fix.
 
 (** D6: a scalar parent makes explain fail with a raw TypeError, not InsufficientInformationError *)
 Theorem C11_explain_fails_only_insufficient_refuted_D6 :
